@@ -606,7 +606,7 @@ public:
   using reference = const value_type;
 
   const_iterator& operator++();
-  const_iterator& operator++(int);
+  const_iterator operator++(int);
   bool operator==(const const_iterator& other) const;
   bool operator!=(const const_iterator& other) const;
   reference operator*() const;
